@@ -298,6 +298,10 @@ func (vc *VC) evalIdent(name string, env *Env) SpecVal {
 		}
 		return SpecVal{Sort: "Pkg", Pkg: pick}
 	}
+	if alt, ok := vc.renamed(name); ok && alt != name {
+		vc.assumed["rename tolerated: contract name "+name+" bound to "+alt+" (same declaration position)"] = true
+		return vc.evalIdent(alt, env)
+	}
 	specFail("unknown identifier %q", name)
 	return SpecVal{}
 }
